@@ -83,3 +83,72 @@ def cert_table(F, hir, enum_suffix, param_names, acc_names):
                     table[H.short(v)] = sorted(set(table[H.short(v)]) | set(ops))
     table = {k: v for k, v in table.items() if v}
     return table, wild, errs, n
+
+
+def bind_walk(node, env, conds, out, methods, recv_names=None):
+    """Generalised collector: operands handed to any method in `methods` (e.g. add/extend on a signer set), resolving
+    `if let PAT(x) = expr` bindings to paths and recording the branch (pattern variant) they sit in."""
+    if not H.is_node(node):
+        return
+    k = node[0]
+    if k == "if":
+        cond = node[2]
+        if H.is_node(cond) and cond[0] == "letx":
+            pat, init = cond[2], cond[3]
+            ip = H.path_str(init, env)
+            binds = H.pat_bindings(pat)
+            v = H.short(H.pat_variant(pat) or "?")
+            env2 = dict(env)
+            if ip is not None and len(binds) == 1:
+                env2[binds[0]] = "%s~%s" % (ip, v)
+            bind_walk(init, env, conds, out, methods, recv_names)
+            bind_walk(node[3], env2, conds, out, methods, recv_names)
+            if node[4] is not None:
+                bind_walk(node[4], env, conds + ["else~%s(%s)" % (v, ip)], out, methods, recv_names)
+            return
+        cp = H.path_str(cond, env)
+        bind_walk(cond, env, conds, out, methods, recv_names)
+        bind_walk(node[3], env, conds + ["if(%s)" % cp], out, methods, recv_names)
+        if node[4] is not None:
+            bind_walk(node[4], env, conds + ["else(%s)" % cp], out, methods, recv_names)
+        return
+    if k == "mcall" and node[2] in methods:
+        recv = H.path_str(node[4], env)
+        if recv_names is None or recv in recv_names:
+            arg = H.path_str(node[5][0], env) if node[5] else None
+            s = "%s(%s)" % (node[2], arg if arg is not None else "?expr")
+            if conds:
+                s += "|" + "|".join(conds)
+            out.append(s)
+    for c in H.children(node):
+        bind_walk(c, env, conds, out, methods, recv_names)
+
+
+def variant_table(hir, enum_suffix, methods, recv_names=None, params=()):
+    """match over `enum_suffix` -> {variant: sorted operands}, wildcard operands, number of matches"""
+    table = {}
+    wild = []
+    n = 0
+    has_wild = False
+    env0 = {p: "param:" + p for p in params}
+    for node in H.walk(hir["body"]):
+        if node[0] != "match":
+            continue
+        sty = (node[5] or "").replace("&", "").replace("mut ", "").strip()
+        if not sty.endswith(enum_suffix):
+            continue
+        n += 1
+        for pat, guard, body in node[3]:
+            for alt in H.pat_alternatives(pat):
+                ops = []
+                env = dict(env0)
+                for b in H.pat_bindings(alt):
+                    env[b] = "$v"
+                bind_walk(body, env, [], ops, methods, recv_names)
+                v = H.pat_variant(alt)
+                if v is None or H.pat_is_wild(alt):
+                    has_wild = True
+                    wild.extend(ops)
+                else:
+                    table[H.short(v)] = sorted(set(table.get(H.short(v), [])) | set(ops))
+    return table, wild, n, has_wild
